@@ -43,10 +43,10 @@ fn abs_pos<R: Read>(r: &H263Reader<R>, base: usize) -> usize {
 
 // ---- fixed-width reads ---------------------------------------------------------------------------------------------------------------------------
 // peek / read / skip of n bits, n = 0..=NMAX, into u32: value, position, failure (EOF) consumes nothing and keeps what it fetched
-// (widths n = 0, STEP, 2*STEP, ... and always NMAX)
-fn h_read_u32<S: Src, const TOTAL: usize, const B: usize, const POS: usize, const NMAX: usize, const STEP: usize>(s: &mut S) {
+// (widths n = NLO, NLO + STEP, NLO + 2*STEP, ... and always NMAX)
+fn h_read_u32<S: Src, const TOTAL: usize, const B: usize, const POS: usize, const NLO: usize, const NMAX: usize, const STEP: usize>(s: &mut S) {
     let all: [u8; MAXB] = s.arr();
-    let mut n = 0;
+    let mut n = NLO;
     while n <= NMAX {
         let fits = POS + n <= TOTAL * 8;
         // peek
